@@ -56,6 +56,8 @@ func main() {
 		cmdCrash(fs, os.Args[2:])
 	case "reclaim":
 		cmdReclaim(fs, os.Args[2:])
+	case "blockmap":
+		cmdBlockMap(fs, os.Args[2:])
 	case "simpleconc":
 		cmdSimpleConc(fs, os.Args[2:])
 	case "kvsconc":
